@@ -35,11 +35,12 @@ CONSTANTS
 
 VARIABLE stack  \* sequence of [srt, e, dep, nn]
 
-AllSorts == {"int", "str", "lint", "lstr", "llint", "dict", "obj", "exc", "call", "path"}
+AllSorts == {"int", "str", "num", "lint", "lstr", "llint", "lnum", "dict", "obj", "exc", "call", "path"}
 \* sorts whose values can be the elements of a list sort: lists of ints, of texts, and of lists of ints (so that
 \* AllMatch(AnyMatch(m)), MatchesListwise([AnyMatch(m), ...]) etc. are typable)
-ListOf(s) == IF s = "int" THEN "lint" ELSE IF s = "str" THEN "lstr" ELSE "llint"
-Elems == {"int", "str", "lint"}
+\* "num" is the mixed numeric sort (ints, bools, floats: equal and hash-equal across types, yet distinguishable)
+ListOf(s) == IF s = "int" THEN "lint" ELSE IF s = "str" THEN "lstr" ELSE IF s = "num" THEN "lnum" ELSE "llint"
+Elems == {"int", "str", "lint", "num"}
 
 \* number of Wrap steps needed to turn a matcher of sort s into one of sort t (99: impossible); used to prune
 \* stacks that could never be combined within the depth bound
@@ -48,6 +49,7 @@ Dist(s, t) ==
     ELSE IF s = "int" /\ t \in {"lint", "dict", "obj", "exc", "str"} THEN 1
     ELSE IF s = "int" /\ t \in {"call", "lstr", "path", "llint"} THEN 2
     ELSE IF s = "lint" /\ t = "llint" THEN 1
+    ELSE IF s = "num" /\ t = "lnum" THEN 1
     ELSE IF s = "str" /\ t \in {"lstr", "path"} THEN 1
     ELSE IF s = "lstr" /\ t = "path" THEN 1
     ELSE IF s = "exc" /\ t = "call" THEN 1
@@ -81,7 +83,7 @@ Wrapped(w, t) ==
          [] w = "LenList"   -> IF s = "int" THEN <<"lint", PreE("len", e)>> ELSE <<>>
          [] w = "LenDict"   -> IF s = "int" THEN <<"dict", PreE("len", e)>> ELSE <<>>
          [] w = "Sum"       -> IF s = "int" THEN <<"lint", PreE("sum", e)>> ELSE <<>>
-         [] w = "Rev"       -> IF s \in {"str", "lint", "lstr", "llint"} THEN <<s, PreE("rev", e)>> ELSE <<>>
+         [] w = "Rev"       -> IF s \in {"str", "lint", "lstr", "llint", "lnum"} THEN <<s, PreE("rev", e)>> ELSE <<>>
          [] w = "ExcM"      -> IF s = "int" THEN <<"exc", ExcME(<<"BX">>, e)>> ELSE <<>>
          [] w = "Raises"    -> IF s = "exc" THEN <<"call", RaisesE(e)>> ELSE <<>>
          [] w = "Struct1"   -> IF s = "int" THEN <<"obj", StructE(<< <<"y", e>> >>)>> ELSE <<>>
